@@ -1,0 +1,14 @@
+//go:build verif
+
+// Machine-checked contracts for package flows (comment-only; read by /verif/gocv).
+
+package flows
+
+//@ pred langIn(ls []i18n.Language, l i18n.Language) := exists k int :: 0 <= k && k < len(ls) && ls[k] == l
+
+// C18: the contact's language counts only if it is one of the environment's allowed languages
+//@ func (e *sessionEnvironment) DefaultLanguage
+//@   nopanic
+//@   requires e != nil && !isnil(e.session) && e.session.(*engine.session) != nil && !isnil(e.Environment)
+//@   ensures [contact_allowed] (e.session.Contact() != nil && e.session.Contact().language != "" && langIn(e.Environment.AllowedLanguages(), e.session.Contact().language)) ==> result == e.session.Contact().language
+//@   ensures [else_env] !(e.session.Contact() != nil && e.session.Contact().language != "" && langIn(e.Environment.AllowedLanguages(), e.session.Contact().language)) ==> result == e.Environment.DefaultLanguage()
